@@ -57,6 +57,34 @@ Proof.
   - destruct src; try discriminate H; destruct dst; try discriminate H; split; discriminate.
 Qed.
 
+(* the executor's DISK counters: one write per Forward to DISK, one read per load from DISK *)
+Definition dwa (a : action) : Z := match a with Forward _ _ _ _ DISK => 1 | _ => 0 end.
+Definition dra (a : action) : Z := match a with Copy _ DISK _ | Move _ DISK _ => 1 | _ => 0 end.
+Lemma check_load_found p k e X (a : action) n src dst : a = Copy n src dst \/ a = Move n src dst -> check p k e X a = None -> lookup n (sel X src) <> None.
+Proof.
+  intros Ha H Hl. destruct Ha as [-> | ->]; cbn [check] in H; rewrite Hl in H; cbn [isnone negb] in H;
+    destruct (is_cp src && (0 <=? n)), (seen_endfwd X), (isnone (w_ics X) && isnone (w_deps X)); cbn [chk first_err app] in H; discriminate.
+Qed.
+Lemma dexec_counts X0 a X0' X e : DiskBlk.dexec N R X0 a = Some X0' -> check pD true e X a = None ->
+  disk_writes (cnt (apply pD e X a)) = disk_writes (cnt X) + dwa a /\ disk_reads (cnt (apply pD e X a)) = disk_reads (cnt X) + dra a.
+Proof.
+  intros Hex Hc. destruct a as [n0 n1 wi wa sg|n1 n0 cl|n src dst|n src dst| |]; cbn [dwa dra apply].
+  - unfold put. destruct sg; cbn [is_cp st_eqb set_cnt set_work set_store cnt count_fwd count_put disk_writes disk_reads]; split; lia.
+  - cbn [set_rr cnt]. split; lia.
+  - assert (Hd : dst = WORK /\ (src = RAM \/ src = DISK)).
+    { cbn [DiskBlk.dexec] in Hex. destruct src, dst; try (cbn [RevBlk.exec] in Hex; discriminate); auto. }
+    destruct Hd as [-> Hs]. pose proof (check_load_found pD true e X _ n src WORK (or_introl eq_refl) Hc) as Hf.
+    destruct (lookup n (sel X src)) as [c|]; [|congruence].
+    destruct Hs as [-> | ->]; cbn [set_cnt set_work set_store cnt count_read disk_writes disk_reads]; split; lia.
+  - assert (Hd : dst = WORK /\ (src = RAM \/ src = DISK)).
+    { cbn [DiskBlk.dexec] in Hex. destruct src, dst; try (cbn [RevBlk.exec] in Hex; discriminate); auto. }
+    destruct Hd as [-> Hs]. pose proof (check_load_found pD true e X _ n src WORK (or_intror eq_refl) Hc) as Hf.
+    destruct (lookup n (sel X src)) as [c|]; [|congruence].
+    destruct Hs as [-> | ->]; cbn [set_cnt set_work set_store cnt count_read disk_writes disk_reads]; split; lia.
+  - cbn [cnt]. split; lia.
+  - cbn [cnt]. split; lia.
+Qed.
+
 Lemma dexec_agrees d X0 X a X0' exh : RxD d X0 X -> NN R (DiskBlk.mx X0) -> NNd (DiskBlk.dk X0) -> rev_clears a ->
   DiskBlk.dexec N R X0 a = Some X0' ->
   check pD true exh X a = None /\ RxD (d + MSTerm.flen a) X0' (apply pD exh X a) /\ NN R (DiskBlk.mx X0') /\ NNd (DiskBlk.dk X0').
